@@ -114,23 +114,8 @@ func c09dispatch(c *an.Ctx) {
 		c.Bad(ioloop, "IOLoop executes commands", execCall.Pos(), "Exec is not called in a loop", nil)
 		return
 	}
-	// the comma-ok assertion to *FatalClientErr: true edge leaves the loop, false edge stays
-	foundFatal := false
-	an.Instrs(ioloop, func(in ssa.Instruction) {
-		ta, ok := in.(*ssa.TypeAssert)
-		if !ok || !ta.CommaOk || typeStrShort(ta.AssertedType) != "*protocol.FatalClientErr" {
-			return
-		}
-		for _, okv := range an.ResultN(ta, 1) {
-			for _, t := range an.BoolTests(okv) {
-				leaves := !reachesHeader(ioloop, t.True, l)
-				stays := reachesHeader(ioloop, t.False, l)
-				if leaves && stays {
-					foundFatal = true
-				}
-			}
-		}
-	})
+	// the comma-ok assertion to *FatalClientErr decides: true leaves the loop, false stays
+	foundFatal := fatalDecides(ioloop, l)
 	c.Check(foundFatal, ioloop, "fatal error closes, non-fatal continues", execCall.Pos(), "", "IOLoop does not leave the loop exactly when Exec's error is a *FatalClientErr (a non-fatal error must keep the connection, a fatal one must close it)")
 	// error from Exec is sent to the client before deciding
 	send := c.P.Func("nsqd", "(*protocolV2).Send")
@@ -1308,4 +1293,37 @@ func condDependsOn(v ssa.Value, pred func(ssa.Value) bool, depth int) bool {
 		return condDependsOn(x.X, pred, depth+1)
 	}
 	return false
+}
+
+// fatalDecides: ioloop contains `_, ok := err.(*protocol.FatalClientErr)` and, from that point on, the loop is left on every
+// path where ok is true and on no path where ok is false. Judged on paths with ok fixed to a constant, so the verdict may
+// travel through a computed boolean or an inlined helper's result (`if p.reportExecError(…) { break }`).
+func fatalDecides(ioloop *ssa.Function, l *an.Loop) bool {
+	found := false
+	an.Instrs(ioloop, func(in ssa.Instruction) {
+		ta, ok := in.(*ssa.TypeAssert)
+		if !ok || !ta.CommaOk || typeStrShort(ta.AssertedType) != "*protocol.FatalClientErr" || l == nil || !l.Blocks[ta.Block()] {
+			return
+		}
+		for _, okv := range an.ResultN(ta, 1) {
+			oki, isInstr := okv.(ssa.Instruction)
+			if !isInstr {
+				continue
+			}
+			// fatal: the loop header must not be reachable again
+			qStay := &an.PathQ{Fn: ioloop, StartAfter: []ssa.Instruction{oki}, Consts: map[ssa.Value]*ssa.Const{okv: an.BoolConst(true)}, AllConsts: true,
+				SinkEdge: func(e an.Edge, _ *an.PathState) bool { return e.To == l.Header },
+				CutEdge:  func(e an.Edge, _ *an.PathState) bool { return !l.Blocks[e.To] }}
+			_, stays := qStay.Find()
+			// non-fatal: no edge out of the loop may be reachable
+			qLeave := &an.PathQ{Fn: ioloop, StartAfter: []ssa.Instruction{oki}, Consts: map[ssa.Value]*ssa.Const{okv: an.BoolConst(false)}, AllConsts: true,
+				SinkEdge: func(e an.Edge, _ *an.PathState) bool { return l.Blocks[e.From] && !l.Blocks[e.To] },
+				CutEdge:  func(e an.Edge, _ *an.PathState) bool { return e.To == l.Header }}
+			_, leaves := qLeave.Find()
+			if !stays && !leaves {
+				found = true
+			}
+		}
+	})
+	return found
 }
